@@ -154,6 +154,7 @@ type profile struct {
 	// SPEC.md §4 (zero in the profiles that predate it, which draw exactly as before)
 	queryPct    int  // share of `query` ops among the ops, in percent
 	genesisTail bool // end the history with [prep] export validate jsonrt reimport
+	restartPct  int  // share of histories with one or two zero-height restarts (op `restart`) somewhere inside
 	std20Pct    int  // share of histories in which every address is 20 bytes long (what standard clients can produce)
 }
 
@@ -233,6 +234,7 @@ func init() {
 
 	genesis := *mixed
 	genesis.name, genesis.genesisTail, genesis.std20Pct = "genesis", true, 60
+	genesis.restartPct = 60
 	genesis.weights = map[string]int{}
 	for k, w := range mixed.weights {
 		genesis.weights[k] = w
@@ -1860,7 +1862,24 @@ func generateHistory(seed int64, index int, prof *profile, nOps int, path string
 		}()
 		return g.nextOp(), true
 	}
+	// zero-height restarts inside the history: the positions come from a PRNG of their own, so that the op stream
+	// of a history is the same with and without them
+	restartAt := map[int]bool{}
+	if prof.restartPct > 0 {
+		rr := rand.New(rand.NewSource(seed*999983 + int64(index)*31 + 7))
+		if rr.Intn(100) < prof.restartPct {
+			restartAt[nOps/4+rr.Intn(nOps/2+1)] = true
+			if rr.Intn(100) < 40 {
+				restartAt[nOps/2+rr.Intn(nOps/2+1)] = true
+			}
+		}
+	}
 	for n := 0; n < nOps && !g.sim.Stopped; n++ {
+		if restartAt[n] {
+			if err := step("restart"); err != nil {
+				return nil, err
+			}
+		}
 		line, ok := draw()
 		if !ok {
 			return hs, nil
